@@ -27,6 +27,10 @@ def run(project, rep):
     rep.run(V.v_r8_token_tables, project, rep)
     from .. import rules_types as T
     rep.run(T.t_r7, project, rep)
+    rep.run(T.t_r6b_no_context_arithmetic, project, rep)
+    from .. import rules_parser as P
+    rep.rule("V-R9", "character data reaches the converters as it is in the document (only surrounding whitespace trimmed): tokenizer rules X-R*")
+    rep.run(P.x_rules, project, rep)
     rep.rule("V-R3", "absent children are None: Aggregate.__init__ sets every non-list spec attribute from the keyword of the same name, None when absent, through the descriptor (F-R2)")
     rep.run(F.f_r2_init, schema, rep)
     rep.run(Z.z_r4_conversion, project, rep)
